@@ -278,6 +278,12 @@ func (cf *clientFormat) writePacketRTP(pkt *rtp.Packet, ntp time.Time) error {
 		maxPlainPacketSize -= len(cf.cm.srtpOutCtx.mki)
 	}
 
+	// a maximum packet size that does not even leave room for the SRTP overhead
+	// cannot be respected by any packet
+	if maxPlainPacketSize < 0 {
+		maxPlainPacketSize = 0
+	}
+
 	plain := make([]byte, maxPlainPacketSize)
 	n, err := pkt.MarshalTo(plain)
 	if err != nil {
